@@ -42,7 +42,7 @@ fn gen_inputs<V: VariableBaseMSM>(io: &GroupIo<V>, rep: &mut Report, rng: &mut R
         let v = (&r >> lo << lo) - &one - (UInt::from(rng.next_u32()) % (&one << lo.min(31)));
         v % &r
     };
-    let smode = rng.next_u32() % 9;
+    let smode = rng.next_u32() % 10;
     let scalars: Vec<UInt> = (0..n)
         .map(|i| match smode {
             0 => UInt::zero(),
@@ -62,6 +62,12 @@ fn gen_inputs<V: VariableBaseMSM>(io: &GroupIo<V>, rep: &mut Report, rng: &mut R
                 &r + (oracle::from_limbs(&[rng.next_u64(), rng.next_u64(), rng.next_u64(), rng.next_u64()]) % span)
             },
             6 => [UInt::zero(), one.clone(), UInt::from(2u8), &r - &one][rng.next_u32() as usize % 4].clone(),
+            9 => {
+                // low limb exactly 1 (or 0) with non-zero upper limbs: looks like a unit / zero scalar to limb-wise shortcuts
+                let hi = (UInt::from(rng.next_u64() | 1) << (64 * (1 + rng.next_u32() as usize % 3))) % &r;
+                let hi = (&hi >> 64usize) << 64usize;
+                (hi + UInt::from(rng.next_u32() % 2)) % &r
+            },
             _ => V::ScalarField::rand(rng).into(),
         })
         .collect();
@@ -73,6 +79,7 @@ fn gen_inputs<V: VariableBaseMSM>(io: &GroupIo<V>, rep: &mut Report, rng: &mut R
         4 => "scalars: top window carries",
         5 if allow_ge_r => "scalars: raw integers in [r, 2^bits)",
         6 => "scalars: small set incl. zeros and ones",
+        9 => "scalars: low limb 0 or 1 with non-zero upper limbs",
         _ => "scalars: uniform",
     });
     let bmode = rng.next_u32() % 6;
@@ -439,6 +446,7 @@ const REQUIRED_SHAPES: &[&str] = &[
     "scalars: all r-1",
     "scalars: top window carries",
     "scalars: raw integers in [r, 2^bits)",
+    "scalars: low limb 0 or 1 with non-zero upper limbs",
     "bases: all equal",
     "bases: identity entries",
     "bases: P and -P",
